@@ -58,6 +58,7 @@ out = ['harnesses! {']
 index = {}
 def add(name, unwind, body, **meta):
     out.append('    %s [%d] => %s;' % (name, unwind, body))
+    meta['unwind'] = unwind
     index[name] = meta
 
 for (ty, skipb, lens, fstarts, ctxs, cstarts) in DEFS:
@@ -149,7 +150,8 @@ for (t, ctxs, st) in PART:
 HIST = ['if?', 'ab?c', 'a?', '1.?', 'abc?', '?', 'ifx?ab', 'a1?']
 for c in HIST:
     bs, arr = ctx_arr(c)
-    add('hist_B1B2_%s' % ctx_name(c), max(len(bs) + 3, 4), 'history::<%d>([%s])' % (len(bs), arr), d='B1B2', kind='hist', n=len(bs), s=0, sym=bs.count(None), ctx=c)
+    for k in ('morph', 'clone', 'spanned'):
+        add('hist_%s_%s' % (k, ctx_name(c)), max(len(bs) + 3, 4), 'history_%s::<%d>([%s])' % (k, len(bs), arr), d='B1B2', kind='hist', n=len(bs), s=0, sym=bs.count(None), ctx=c)
 out.append('}')
 dst = sys.argv[1] if len(sys.argv) > 1 else 'src/harness_list.rs'
 # optional second argument: a file with harness names, one per line - only those are emitted (Kani generates one goto
